@@ -230,8 +230,8 @@ def run_history(seed, knobs=None):
                     count('quiescence_checks_all_messages_answered')
                     if not mon.outcomes():
                         viol.append(('no-outcome-after-all-requests-answered',
-                                     'uid %d epoch %d: %d messages sent, all answered or failed, nothing pending, but no callback/errback ran' % (
-                                         mon.uid, mon.epoch, len(arr)), mon))
+                                     'uid %d epoch %d at t=%.6f: %d messages sent, all answered or failed, nothing pending, but no callback/errback ran' % (
+                                         mon.uid, mon.epoch, world.now, len(arr)), mon))
 
         def checkpoints():
             """late registration + result() for every future whose current epoch shows an outcome"""
